@@ -344,6 +344,36 @@ Theorem C10_tree_side : forall v t, src_c10_stump_side v t = if (v <? t)%Z then 
 Proof. exact stump_side_shape. Qed.
 Print Assumptions C10_tree_side.
 
+(* ---- the breadth-first do_split over a sample SET (follow-up of repo fix 2030fc5: empty branches) ------------------------------------------ *)
+(* for EVERY list of (id, sample) pairs whose ids determine the sample -- the empty list, single samples and lists that leave whole
+   branches empty included -- the queue-based split of dtree_wlearner_t::do_split (children are queued even with an empty sample set)
+   assigns to every listed sample exactly the leaf of its own walk and nothing to the others *)
+Theorem C10_tree_bfs_is_walk : forall nodes nt fuel ss, tree_wf nodes nt = true -> bfs_done fuel nodes [(0%Z, ss)] = true ->
+  (forall i s s', In (i, s) ss -> In (i, s') ss -> s = s') ->
+  forall i, (forall s, In (i, s) ss -> assigned i (tree_bfs fuel nodes [(0%Z, ss)]) = walk_from nodes 0 s) /\
+            ((forall s, ~ In (i, s) ss) -> assigned i (tree_bfs fuel nodes [(0%Z, ss)]) = None).
+Proof. exact bfs_is_walk. Qed.
+Print Assumptions C10_tree_bfs_is_walk.
+(* the queue empties for every well-formed table and every list once the fuel reaches [bfs_fuel] (the driver checks [bfs_done] of its runs) *)
+Theorem C10_tree_bfs_fuel : forall nodes nt ss fuel, tree_wf nodes nt = true -> (bfs_fuel nodes [(0%Z, ss)] <= fuel)%nat ->
+  bfs_done fuel nodes [(0%Z, ss)] = true.
+Proof. exact bfs_fuel_root. Qed.
+Print Assumptions C10_tree_bfs_fuel.
+(* predictions / groups depend only on the sample: splitting a sample within any two lists gives the same group *)
+Theorem C10_tree_sublist : forall nodes nt f1 f2 ss1 ss2, tree_wf nodes nt = true ->
+  bfs_done f1 nodes [(0%Z, ss1)] = true -> bfs_done f2 nodes [(0%Z, ss2)] = true ->
+  (forall i s s', In (i, s) ss1 -> In (i, s') ss1 -> s = s') -> (forall i s s', In (i, s) ss2 -> In (i, s') ss2 -> s = s') ->
+  forall i s, In (i, s) ss1 -> In (i, s) ss2 ->
+    assigned i (tree_bfs f1 nodes [(0%Z, ss1)]) = assigned i (tree_bfs f2 nodes [(0%Z, ss2)]).
+Proof. exact bfs_sublist. Qed.
+Print Assumptions C10_tree_sublist.
+Definition ex_nodes : list node := match ex_tree with WTree n _ => n | _ => [] end.
+Example C10_nonvacuous_bfs : tree_wf ex_nodes 4 = true /\ bfs_done 8 ex_nodes [(0%Z, [])] = true /\ bfs_done 3 ex_nodes [(0%Z, [(0%nat, [FNum 1])])] = true /\
+  bfs_done 2 ex_nodes [(0%Z, [])] = false /\ (bfs_fuel ex_nodes [(0%Z, [])] <= 15)%nat /\
+  tree_bfs 3 ex_nodes [(0%Z, [(7%nat, [FNum 1]); (9%nat, [FMiss]); (4%nat, [FNum (-3)])])] = [(4%nat, 0%Z); (7%nat, 2%Z)] /\
+  tree_bfs 3 ex_nodes [(0%Z, [])] = [] /\ assigned 9 [(4%nat, 0%Z); (7%nat, 2%Z)] = None.
+Proof. repeat split; vm_compute; try reflexivity. Qed.
+
 (* ---- selection criteria ------------------------------------------------------------------------------------------------------------------ *)
 (* the translated AIC / AICc / BIC expressions and the k, n arguments of every learner have the shape the real-valued model evaluates *)
 Theorem C10_criterion_shape :
